@@ -76,6 +76,16 @@ const (
 
 // goField resolves the Go field of attribute a inside struct value sv (addressable struct, not pointer).
 func goField(sv reflect.Value, a *spec.Attr) (reflect.Value, fieldState) {
+	return goFieldOpt(sv, a, false)
+}
+
+// goFieldZeroEmbed is goField for the writing direction: the fields of a nil nullable embedded
+// message read as those of its zero value (CopyTo writes them as such).
+func goFieldZeroEmbed(sv reflect.Value, a *spec.Attr) (reflect.Value, fieldState) {
+	return goFieldOpt(sv, a, true)
+}
+
+func goFieldOpt(sv reflect.Value, a *spec.Attr, zeroEmbed bool) (reflect.Value, fieldState) {
 	if a.Placeholder {
 		return reflect.Value{}, fsPlaceholder
 	}
@@ -87,7 +97,10 @@ func goField(sv reflect.Value, a *spec.Attr) (reflect.Value, fieldState) {
 		}
 		if f.Kind() == reflect.Ptr {
 			if f.IsNil() {
-				return reflect.Value{}, fsNilEmbed
+				if !zeroEmbed {
+					return reflect.Value{}, fsNilEmbed
+				}
+				f = reflect.New(f.Type().Elem())
 			}
 			f = f.Elem()
 		}
